@@ -144,10 +144,19 @@ def gen_trace(core, aio, rng, tier, tmpdir, idx):
     names = ["a", "b", "c"]
     tpls = ["{nm}", "{nm}_{start}", "{nm}_{start:.3f}_{end:.3f}", "{nm}_{duration}", "{nm}_{duration:.3f}_{end}"]
     for _ in range(rng.randint(3, 14)):
-        op = rng.choice(["save", "save", "load", "load", "load", "numpy"])
+        op = rng.choice(["save", "save", "load", "load", "load", "numpy", "plant"])
         e = {"op": op, "k": "ok"}
         try:
-            if op == "save":
+            if op == "plant":
+                from .audio import write_noncanonical_wav
+                n = rng.choice([0, 1, rng.randint(0, 12), rng.randint(0, 40)])
+                n = max(0, min(n, cap - base - 1))
+                data = make_audio(n, sw, ch, first=base)
+                base += n
+                nm = rng.choice(names) + rng.choice([".wav", ".dat"])
+                write_noncanonical_wav(os.path.join(d, nm), data, sr, sw, ch)
+                e.update(nm=nm, fmt="wav", file=ids_of(data, sw, ch), hdr=[sr, sw, ch])
+            elif op == "save":
                 i = rng.randrange(len(regs))
                 r = regs[i]
                 fmt = rng.choice(["wav", "raw"])
@@ -230,11 +239,56 @@ def gen_trace(core, aio, rng, tier, tmpdir, idx):
         except Exception as exc:  # noqa
             e["k"] = type(exc).__name__
         for f_, dv in (("r", 1), ("nm", ""), ("expnm", ""), ("fmt", ""), ("eok", True), ("file", []), ("hdr", [0, 0, 0]), ("sn", 0), ("sd", 1), ("mn", NONE),
-                       ("md", 1), ("lazy", False), ("ret", []), ("par", [sr, sw, ch]), ("b", []), ("sw", sw), ("c", ch), ("arr", [])):
+                       ("md", 1), ("lazy", False), ("ret", []), ("par", [sr, sw, ch]), ("b", []), ("sw", sw), ("c", ch), ("arr", []), ("big", 0), ("first", 0), ("len", 0), ("match", True)):
             e.setdefault(f_, dv)
         ev.append(e)
     shutil.rmtree(d, ignore_errors=True)
     return {"pool": pool, "ev": ev, "fmt": [sr, sw, ch]}
+
+
+def big_trace(core, rng, tmpdir, idx):
+    """A planted multi-megabyte file, loaded with skip / max_read beyond 2^20 samples (eager and lazy): size thresholds of internal
+    buffers are out of reach of small files whatever the call sequence."""
+    import numpy as np
+    import wave
+    sw, ch, sr = 2, rng.choice([1, 2, 2, 3]), 16000
+    n = (1 << 21) + rng.randint(1000, 90000)
+    data = ((np.arange(n * ch, dtype=np.int64) * 7919 + idx) % 65521 - 30000).astype("<i2").tobytes()
+    bps = sw * ch
+    fmt = rng.choice(["wav", "raw"])
+    path = os.path.join(tmpdir, f"big{idx}." + fmt)
+    if fmt == "raw":
+        with open(path, "wb") as f:
+            f.write(data)
+        kw = dict(sampling_rate=sr, sample_width=sw, channels=ch)
+    else:
+        with wave.open(path, "wb") as w:
+            w.setframerate(sr); w.setsampwidth(sw); w.setnchannels(ch); w.writeframes(data)
+        kw = {}
+    ev = []
+    dflt = (("r", 1), ("nm", ""), ("expnm", ""), ("fmt", ""), ("eok", True), ("file", []), ("hdr", [0, 0, 0]), ("lazy", False), ("ret", []), ("b", []),
+            ("sw", sw), ("c", ch), ("arr", []))
+    for (skip, mr, lazy) in ((round(66 + rng.randint(0, 6000) / 100, 2), rng.choice([None, round(rng.randint(1, 900) / 100, 2)]), True),
+                             (round(rng.randint(0, 300) / 100, 2), round(66 + rng.randint(0, 6000) / 100, 2), True),
+                             (round(66 + rng.randint(0, 6000) / 100, 2), round(rng.randint(1, 900) / 100, 2), False)):
+        e = {"op": "bigload", "k": "ok", "big": n, "par": [sr, sw, ch]}
+        e["sn"], e["sd"] = frac3(skip)
+        e["mn"], e["md"] = (NONE, 1) if mr is None else frac3(mr)
+        try:
+            got = core.load(path, skip=skip, max_read=mr, large_file=lazy, **kw)
+            b = bytes(got)
+            m = len(b) // bps
+            lo0 = int(round(skip * sr))
+            cands = [c for c in (lo0 - 1, lo0, lo0 + 1) if 0 <= c <= n and data[c * bps:c * bps + len(b)] == b] if len(b) % bps == 0 else []
+            e.update(first=(cands[0] if cands else min(lo0, n)) + 1, len=m, match=bool(cands) and [got.sampling_rate, got.sample_width, got.channels] == [sr, sw, ch])
+        except Exception as exc:  # noqa
+            e.update(k=type(exc).__name__, first=0, len=0, match=False)
+        for f_, dv in dflt:
+            e.setdefault(f_, dv)
+        e["lazy"] = lazy
+        ev.append(e)
+    os.remove(path)
+    return {"pool": [], "ev": ev, "fmt": [sr, sw, ch]}
 
 
 def check(prop, tier, replay=None):
@@ -281,6 +335,7 @@ def check(prop, tier, replay=None):
     V.sample({"leg": "R", "history": hs[len(hs) // 2]})
     t0 = time.time()
     traces = [gen_trace(core, aio, rng, tier, tmpdir, i) for i in range(400 if tier == "quick" else 25000)]
+    traces += [big_trace(core, rng, tmpdir, i) for i in range(2 if tier == "quick" else 12)]
     tcfg = "SPECIFICATION TSpec\nCONSTRAINT Mon\nPOSTCONDITION Post\nCHECK_DEADLOCK FALSE\n"
     rows, st = judge("FilesTrace", tcfg, traces, wd, "ft", strip=lambda x: {"pool": x["pool"], "ev": x["ev"]},
                      weight=lambda x: sum(len(e["ret"]) + len(e["file"]) + 5 for e in x["ev"]))
